@@ -195,6 +195,37 @@ theorem close_is_seen_by_other_end {s s' : State} {th : Th} {ch ch2 : Nat} {cn :
   cases cli <;> simp [Conn.half, Conn.setHalf, upd]
 
 
+/-- **removal ends both ends** (per step; the notice travels through the FIFO event loop and connection, whose
+composition is the unmechanised network layer): the publisher's lock section empties both of its tables for the object
+and schedules a notice for every remote subscriber; each notice is handed to the event loop while the peer is connected;
+the subscriber's handler empties its entry. -/
+theorem removal_ends_both_ends :
+    (∀ (s s' : State) (th : Th) (ch ch2 : Nat) (ob : Obj) (rest : List MOp) (o : Out), Reach s →
+        microStep s th ch ch2 (.objRemoved ob) rest = some (s', o) →
+        (∀ sg, (s'.ctx th.ctx).rsubs ⟨ob, sg⟩ = [] ∧ (s'.ctx th.ctx).lsubs ⟨.name th.ctx, ob, sg⟩ = []) ∧
+        (∀ sg d, d ∈ (s.ctx th.ctx).rsubs ⟨ob, sg⟩ → ∃ ns, s'.prog th = .notify ns ob :: rest ∧ (sg, d) ∈ ns)) ∧
+    (∀ (s s' : State) (th : Th) (ch ch2 : Nat) (k : Key) (rest : List MOp) (o : Out),
+        microStep s th ch ch2 (.sigRemoved k) rest = some (s', o) → (s'.ctx th.ctx).lsubs k = []) :=
+  ⟨fun _ _ _ _ _ _ _ _ hr hs => removal_ends_publisher_side hr hs,
+   fun _ _ _ _ _ _ _ _ hs => removal_notice_ends_subscriber_side hs⟩
+
+/-- **disconnect ends both ends** (per step): whichever way an end of a connection goes down — `disconnect_from_peer`
+or end-of-stream caused by the other side's close / stop — its socket thread unregisters the peer, runs
+`handle_peer_context_removed` (which drops the peer from every remote-subscriber set and empties every local entry
+published by it), and closes its end, which in turn is what the other end sees as end-of-stream. -/
+theorem disconnect_ends_both_ends :
+    (∀ (s s' : State) (cn : ConnId) (cli : Bool) (o : Out), step s (.eof cn cli) = some (s', o) →
+        s'.prog (.sock ((s.conn cn).half cli).owner) =
+          [.popPeer (srcName s cn cli), .peerRemoved (srcName s cn cli), .closeConn cn cli]) ∧
+    (∀ (s s' : State) (th : Th) (ch ch2 : Nat) (n : Peer) (rest : List MOp) (o : Out),
+        microStep s th ch ch2 (.peerRemoved n) rest = some (s', o) →
+        (∀ κ, n ∉ (s'.ctx th.ctx).rsubs κ) ∧ (∀ k, k.pc = n → (s'.ctx th.ctx).lsubs k = [])) ∧
+    (∀ (s s' : State) (th : Th) (ch ch2 : Nat) (cn : ConnId) (cli : Bool) (rest : List MOp) (o : Out),
+        microStep s th ch ch2 (.closeConn cn cli) rest = some (s', o) → ((s'.conn cn).half cli).isOpen = false) :=
+  ⟨fun _ _ _ _ _ hs => disconnect_runs_cleanup hs,
+   fun _ _ _ _ _ _ _ _ hs => disconnect_ends_this_side hs,
+   fun _ _ _ _ _ _ _ _ _ hs => (close_is_seen_by_other_end hs).1⟩
+
 /-! ## Quiescent consistency
 
 `Quiescent s`: nothing in flight (Lemmas/C08Quiet).  `Consistent s`: for live contexts `a`, `p` with a registered
